@@ -18,21 +18,28 @@ EXPR = 'mitxgraders/helpers/calc/expressions.py'
 FILES = [MH, FG, IG, MG, EXPR]
 
 EXPLANATION = (
-    "(D1) in MathMixin.check_math_response every returning path on which the raw verdict can be True or 'partial' "
-    "(decided by evaluating the path guards over the three result records) has executed post_eval_validation with the "
-    "student's input and the function set of the student's evaluation; raw_check is called from nowhere else and "
-    "FormulaGrader.check_response / SummationGraderBase.check return check_math_response; (D2) post_eval_validation "
-    "calls the three validators on every path with the right config keys; the function set is the student's "
-    "(gen_evaluations' third result; in the summation graders the union over lower, upper and summand); (D3) normal "
-    "forms of the three validators (spaces removed from both sides, containment, InvalidInput), get_permitted_functions "
-    "evaluated over a model of the four sets in all branches, and its call in validate_math_config; (D4) in the three "
-    "gen_evaluations the black-list is built from config['instructor_vars'] (plus sibling names in FormulaGrader) and "
-    "its deletion from the variable scope lies on every path between the author's and the student's evaluation of an "
-    "iteration, after the author's, with no re-insertion before the student's; (D5) MathExpression.eval calls "
-    "check_scope(variables, functions, suffixes) before eval_node on every path, check_scope compares the parse-time "
-    "name sets with the scope and raises UndefinedVariable/UndefinedFunction; evaluator forwards the scope in order.")
-NOT_DECIDED = ("evaluation values; that the parse actions record every name (C10); that pyparsing cannot smuggle a name "
-               "past the recorded sets; validate_blacklist_whitelist_config (C20).")
+    '(D1) decision paths of MathMixin.check_math_response: the guards of every returning path that skips '
+    'post_eval_validation are evaluated over the three ok values of an otherwise opaque result record; a '
+    'credited value on such a path is a violation; raw_check has no other caller and the entry points delegate '
+    'to check_math_response. (D2) post_eval_validation calls the three validators on every path with the '
+    "student's expression / function set and the right config keys; provenance of the function set (student's "
+    'evaluation; union over lower, upper and summand in the summation graders). (D3) normal forms of the '
+    'validators, with loops, comprehensions, any()/all()/next() and early-return layouts seen as the same '
+    "'there is an element of SEQ with P' construct: forbidden string contained in the expression with spaces "
+    'removed on both sides, for every expression and forbidden string, dict values; required function not in '
+    'used; used function not in permitted; InvalidInput. get_permitted_functions and the black-list of hidden '
+    'names are evaluated as set algebra over Venn-region universes (defaults / always-allowed / blacklist / '
+    'whitelist; instructor_vars x samples, sibling keys). (D4) in the three gen_evaluations the deletion of '
+    "the black-list from the student's variable scope lies on every path between the author's and the "
+    "student's evaluation, after the author's, with no re-insertion (CFG). (D5) check_scope dominates "
+    'eval_node, compares the parse-time name sets with the scope and raises; evaluator and the graders forward '
+    'the scope objects. '
+)
+NOT_DECIDED = (
+    'evaluation values; that the parse actions record every name (C10); that pyparsing cannot smuggle a name '
+    'past the recorded sets; validate_blacklist_whitelist_config (C20); validator shapes outside the '
+    'recognised forms (analysis-error). '
+)
 ASSUMPTIONS = ["InvalidInput / UndefinedVariable / UndefinedFunction are student-facing (C02-D4)"]
 
 MM = 'mitxgraders.helpers.math_helpers.MathMixin'
@@ -394,284 +401,222 @@ def _strip_kind(e, var):
     return None
 
 
-VALIDATOR_CASES = [
-    # (function, args, 'ok' | 'raise', class of the obligation, what a wrong outcome means)
-    ('validate_forbidden_strings_not_used', ('2*sin(x)*cos(x)', ['*y', '+ y'], 'MSG'), 'ok', 'F.accept',
-     'an expression without any forbidden string is refused'),
-    ('validate_forbidden_strings_not_used', ('x', ['+x+x'], 'MSG'), 'ok', 'F.accept',
-     'containment is tested the wrong way round (the expression occurs inside the forbidden string)'),
-    ('validate_forbidden_strings_not_used', ('sin(x+x)', ['+x'], 'MSG'), 'raise', 'F.match', 'a forbidden substring is accepted'),
-    ('validate_forbidden_strings_not_used', ('sin(x + x)', ['+x'], 'MSG'), 'raise', 'F.student',
-     "spaces are not removed from the student's expression: 'x + x' escapes the forbidden string '+x'"),
-    ('validate_forbidden_strings_not_used', ('sin(x+x)', ['+ x'], 'MSG'), 'raise', 'F.forbidden',
-     "spaces are not removed from the forbidden string: the entry '+ x' never matches"),
-    ('validate_forbidden_strings_not_used', ('a*x', ['+x', '*x'], 'MSG'), 'raise', 'F.all', 'only the first forbidden string is tested'),
-    ('validate_forbidden_strings_not_used', (['x', 'x+x'], ['+x'], 'MSG'), 'raise', 'F.all', 'only the first expression of a list is tested'),
-    ('validate_forbidden_strings_not_used', (['x+x', 'y'], ['+x'], 'MSG'), 'raise', 'F.all', 'the first expression of a list is not tested'),
-    ('validate_forbidden_strings_not_used', ({'lower': 'x', 'summand': 'x + x'}, ['+x'], 'MSG'), 'raise', 'F.dict',
-     'the submitted expressions of a structured input (dict values) are not examined'),
-    ('validate_forbidden_strings_not_used', ({'x+x': 'y'}, ['+x'], 'MSG'), 'ok', 'F.dict', 'the KEYS of a structured input are examined'),
-    ('validate_required_functions_used', (['sin', 'cos'], ['cos']), 'ok', 'R.accept', 'a formula that uses the required function is refused'),
-    ('validate_required_functions_used', (set(), []), 'ok', 'R.accept', 'a formula is refused although nothing is required'),
-    ('validate_required_functions_used', (['sin'], ['cos']), 'raise', 'R.refuse', 'a formula that omits the required function is accepted'),
-    ('validate_required_functions_used', ({'sin', 'cos'}, ['sin', 'tan']), 'raise', 'R.refuse', 'only the first required function is enforced'),
-    ('validate_only_permitted_functions_used', ({'f', 'sin'}, {'f', 'g', 'sin'}), 'ok', 'P.accept',
-     'a formula that uses only permitted functions is refused'),
-    ('validate_only_permitted_functions_used', (set(), {'f'}), 'ok', 'P.accept', 'a formula without functions is refused'),
-    ('validate_only_permitted_functions_used', ({'f', 'h'}, {'f', 'g'}), 'raise', 'P.refuse',
-     'a formula that uses a function outside the permitted set is accepted'),
-    ('validate_only_permitted_functions_used', ({'f'}, set()), 'raise', 'P.refuse', 'a function is accepted although nothing is permitted'),
-]
-VALIDATOR_CLASSES = [
-    ('F.accept', 'validate_forbidden_strings_not_used: expressions without a forbidden string pass'),
-    ('F.match', 'validate_forbidden_strings_not_used: a forbidden substring is refused'),
-    ('F.student', "validate_forbidden_strings_not_used: test [student side] spaces ignored"),
-    ('F.forbidden', 'validate_forbidden_strings_not_used: test [forbidden side] spaces ignored'),
-    ('F.all', 'validate_forbidden_strings_not_used: every expression against every forbidden string'),
-    ('F.dict', 'validate_forbidden_strings_not_used: dict input values examined'),
-    ('F.error', 'validate_forbidden_strings_not_used: error class'),
-    ('R.accept', 'validate_required_functions_used: present functions pass'),
-    ('R.refuse', 'validate_required_functions_used: a missing required function is refused'),
-    ('R.error', 'validate_required_functions_used: error class'),
-    ('P.accept', 'validate_only_permitted_functions_used: permitted functions pass'),
-    ('P.refuse', 'validate_only_permitted_functions_used: a function outside the permitted set is refused'),
-    ('P.error', 'validate_only_permitted_functions_used: error class'),
-]
-
-
-def _validators_model(r, idx):
-    """Interpret the three validators on model inputs; False when a body is outside the interpreter's subset."""
-    import copy
-    problems = {k: [] for k, _ in VALIDATOR_CLASSES}
-    classes_seen = {}
-    try:
-        for fname, args, want, cls, meaning in VALIDATOR_CASES:
-            fi = idx.func(HELP + fname)
-            funcs = {n: f.node for n, f in fi.module.funcs.items() if (HELP + n) in idx.unreviewed}
-            env = {'__module__': fi.module, '__funcs__': funcs}
-            env.update(zip(fi.params, copy.deepcopy(args)))
-            try:
-                kind, got, stmt = mev.call(fi.node, env)
-                outcome = ('ok', got)
-            except mev.ModelRaise as e:
-                outcome = ('raise', e.cls)
-            if outcome[0] != want:
-                problems[cls].append('%s%r %s: %s' % (fname, args[:2], 'raises %s' % outcome[1] if outcome[0] == 'raise' else 'passes', meaning))
-            if outcome[0] == 'raise':
-                classes_seen.setdefault(fname, set()).add(outcome[1])
-                if want == 'ok' and outcome[1] in mev.BUILTIN_EXC:
-                    problems[cls][-1] += ' (a %s escapes)' % outcome[1]
-    except mev.Unsupported:
-        return False
-    for fname, key in (('validate_forbidden_strings_not_used', 'F.error'), ('validate_required_functions_used', 'R.error'),
-                       ('validate_only_permitted_functions_used', 'P.error')):
-        fi = idx.func(HELP + fname)
-        bad = [c for c in classes_seen.get(fname, ()) if c != 'InvalidInput' and not (c and lib.exc_is_subclass(idx, fi.module, c, 'StudentFacingError'))]
-        if bad:
-            problems[key].append('refusals raise %s, which is not a student-facing error' % bad)
-    try:
-        fi = idx.func(HELP + 'validate_forbidden_strings_not_used')
-        env = {'__module__': fi.module, '__funcs__': {n: f.node for n, f in fi.module.funcs.items() if (HELP + n) in idx.unreviewed}}
-        env.update(zip(fi.params, ('sin(2*\ttheta)', ['*theta'], 'MSG')))
-        mev.call(fi.node, env)
-        r.note("by-catch: only U+0020 is removed before the forbidden-string test, while the formula parser also skips TAB and "
-               "newline: 'sin(2*<TAB>theta)' is not matched by forbidden string '*theta' yet parses like 'sin(2*theta)' "
-               "(the property speaks of spaces only; reported for triage)")
-    except (mev.ModelRaise, mev.Unsupported):
-        pass
-    for key, construct in VALIDATOR_CLASSES:
-        fi = idx.func(HELP + construct.split(':')[0])
-        if problems[key]:
-            r.violation(construct, problems[key][0] + (' (%d model inputs differ)' % len(problems[key]) if len(problems[key]) > 1 else ''),
-                        fi.loc)
-        else:
-            r.ok(construct, 'holds on all model inputs', fi.loc)
-    return True
-
-
 def d3_validators(ctx, idx):
     r = ctx.rule('D3.NF', 'the three validators refuse exactly: forbidden substring (spaces ignored on both sides), missing '
-                 'required function, used function outside the permitted set', floor=13)
+                 'required function, used function outside the permitted set', floor=12)
     with r:
-        if _validators_model(r, idx):
-            return
-        # ---- forbidden strings
+        # ---- forbidden strings (loops, comprehensions and any()/all() forms are seen as the same iteration construct)
         fi = idx.func(HELP + 'validate_forbidden_strings_not_used')
         C = 'validate_forbidden_strings_not_used'
         p_expr, p_forb, p_msg = fi.params
-        loops = [l for l in lib.loops_of(fi.node) if isinstance(l, ast.For) and isinstance(l.target, ast.Name)]
-        outer = [l for l in loops if fl.name_of(l.iter) == p_expr]
-        inner = [l for l in loops if fl.name_of(l.iter) == p_forb]
-        if len(outer) != 1 or len(inner) != 1:
-            sl = [l for l in loops if isinstance(l.iter, ast.Subscript) and fl.name_of(l.iter.value) in (p_expr, p_forb)]
-            if sl:
-                r.violation(C + ': loops', 'only part of %s is examined (`%s`)' % (fl.name_of(sl[0].iter.value), short(sl[0].iter)),
-                            lib.loc(fi, sl[0]))
-            raise AnalysisError('%s: loops over the expressions / the forbidden strings not recognised' % C)
-        outer, inner = outer[0], inner[0]
-        ev, fv = outer.target.id, inner.target.id
-        raises = [(t, x) for t, x in _guarded_raise(fi, None)]
-        hits = [(t, x) for t, x in raises if t is not None and any(isinstance(c, ast.Compare) for c in ast.walk(t.test))]
-        if not hits:
-            r.violation(C + ': test', 'no containment test raises any more: forbidden strings are accepted', fi.loc)
         env = lib.local_env(fi.node)
-        for t, x in hits:
+        raises = [(t, x) for t, x in _guarded_raise(fi, None) if t is not None]
+        if not raises:
+            fl.absent(r, idx, C + ': test', 'no containment test raises any more: forbidden strings are accepted', fi.loc)
+        prov = fl.Prov(fi.node, roots=[p_expr, p_forb])
+        for t, x in raises:
             where = lib.loc(fi, t)
-            test = nf.canon(nf.subst(t.test, env))
-            if not (isinstance(test, ast.Compare) and len(test.ops) == 1 and isinstance(test.ops[0], (ast.In, ast.NotIn))):
-                r.undecided(C + ': test', 'not a containment test: %s' % short(t.test), where)
+            test = fl.expand(t.test, env)
+            binds = []          # (variable, sequence expr, kind, node) innermost first
+            core = test
+            negated = False
+            if isinstance(core, ast.UnaryOp) and isinstance(core.op, ast.Not) and isinstance(core.operand, ast.Call) \
+                    and nf.callee_name(core.operand) == 'all':
+                core, negated = core.operand, True       # not all(... not in ...) == any(... in ...)
+            while isinstance(core, ast.Call) and isinstance(core.func, ast.Name) and core.func.id in ('any', 'all') and len(core.args) == 1 \
+                    and isinstance(core.args[0], (ast.GeneratorExp, ast.ListComp)):
+                comp = core.args[0]
+                if core.func.id == 'all' and not negated:
+                    break
+                for g in reversed(comp.generators):
+                    binds.append((fl.name_of(g.target), g.iter, 'comp', g))
+                core = comp.elt
+            for a in ancestors(t):
+                if isinstance(a, ast.For):
+                    binds.append((fl.name_of(a.target), a.iter, 'for', a))
+            core = nf.canon(core)
+            if negated:
+                core = nf.negate(core)
+            if not (isinstance(core, ast.Compare) and len(core.ops) == 1 and isinstance(core.ops[0], (ast.In, ast.NotIn))):
+                r.undecided(C + ': test', 'not a containment test: %s' % short(test), where)
                 continue
-            needle, hay = test.left, test.comparators[0]
-            kn, kh = _strip_kind(needle, fv), _strip_kind(hay, ev)
-            if kn is None or kh is None:
-                if _strip_kind(needle, ev) and _strip_kind(hay, fv):
-                    r.violation(C + ': test', 'containment is tested the wrong way round (`%s`): the expression must occur inside the '
-                                'forbidden string for the check to fire' % unparse(t.test), where,
-                                expected='forbidden in expression', found=unparse(test))
-                else:
-                    r.undecided(C + ': test', 'operands not recognised: %s' % short(test), where)
+
+            def role_of_var(v):
+                for name, seq, kind, node in binds:
+                    if name == v:
+                        s_, _ = fl.unwrap_seq(seq)
+                        sliced = isinstance(s_, ast.Subscript) and isinstance(s_.slice, ast.Slice)
+                        base = s_.value if sliced else s_
+                        pr = prov.of(base)
+                        if pr == {p_forb}:
+                            return 'forbidden', sliced, kind, node
+                        if pr == {p_expr}:
+                            return 'expression', sliced, kind, node
+                return None
+
+            def side(e):
+                names = [n.id for n in ast.walk(e) if isinstance(n, ast.Name)]
+                for v in names:
+                    ro = role_of_var(v)
+                    if ro:
+                        return v, ro
+                return None, None
+            needle, hay = core.left, core.comparators[0]
+            nv, nrole = side(needle)
+            hv, hrole = side(hay)
+            if nrole is None or hrole is None:
+                r.undecided(C + ': test', 'operands of `%s` not traced to the expressions / forbidden strings' % short(core), where)
                 continue
-            if isinstance(test.ops[0], ast.NotIn):
+            if nrole[0] == 'expression' and hrole[0] == 'forbidden':
+                r.violation(C + ': test', 'containment is tested the wrong way round (`%s`): the expression must occur inside the '
+                            'forbidden string for the check to fire' % unparse(core), where, expected='forbidden in expression')
+                continue
+            if nrole[0] != 'forbidden' or hrole[0] != 'expression':
+                r.undecided(C + ': test', 'roles of the operands not recognised: %s' % short(core), where)
+                continue
+            if isinstance(core.ops[0], ast.NotIn):
                 r.violation(C + ': test', 'the test is `not in`: expressions WITHOUT the forbidden string are refused and those containing '
                             'it are accepted', where, expected='in')
                 continue
+            kn, kh = _strip_kind(needle, nv), _strip_kind(hay, hv)
             if kh == 'raw':
-                r.violation(C + ': test [student side]', "spaces are not removed from the student's expression: '%s' is missed when the "
-                            "student types it with a space inside (e.g. '+ x' vs '+x')" % '+x', where,
-                            expected="expression.replace(' ', '')")
-            else:
+                r.violation(C + ': test [student side]', "spaces are not removed from the student's expression: '+x' is missed when the "
+                            "student types it with a space inside (e.g. '+ x' vs '+x')", where, expected="expression.replace(' ', '')")
+            elif kh == 'stripped':
                 r.ok(C + ': test [student side]', "spaces removed from the student's expression", where)
-                if nf.match("%s.replace(' ', '')" % ev, hay) is not None:
+                if nf.match("%s.replace(' ', '')" % hv, hay) is not None:
                     r.note("by-catch: only U+0020 is removed before the forbidden-string test, while the formula parser also skips TAB and "
                            "newline: 'sin(2*<TAB>theta)' is not matched by forbidden string '*theta' yet parses like 'sin(2*theta)' "
                            "(the property speaks of spaces only; reported for triage)")
+            else:
+                r.undecided(C + ': test [student side]', 'preparation of the expression not recognised: %s' % short(hay), where)
             if kn == 'raw':
                 r.violation(C + ': test [forbidden side]', "spaces are not removed from the forbidden string: an entry such as '+ x' never "
                             "matches the space-free expression", where, expected="forbidden.replace(' ', '')")
-            else:
+            elif kn == 'stripped':
                 r.ok(C + ': test [forbidden side]', 'spaces removed from the forbidden string', where)
+            else:
+                r.undecided(C + ': test [forbidden side]', 'preparation of the forbidden string not recognised: %s' % short(needle), where)
             cn, ok = _raise_class_ok(idx, fi, x)
             r.check(ok, C + ': error', 'raises %s' % cn, 'raises %s, which is not a student-facing error' % cn, lib.loc(fi, x),
                     expected='InvalidInput')
-            inside = any(a is inner for a in ancestors(t)) and any(a is outer for a in ancestors(inner))
-            r.check(inside, C + ': nesting', 'every forbidden string is tested against every expression',
-                    'the test is not nested in both loops: not every (expression, forbidden string) pair is tested', where)
-        for lp, what in ((outer, 'expressions'), (inner, 'forbidden strings')):
-            exits = [e for e in lib.loop_has_early_exit(lp) if not isinstance(e, ast.Raise)]
-            if lp is outer:
-                ids = {id(n) for n in ast.walk(inner)}
-                exits = [e for e in exits if id(e) not in ids]
-            r.check(not exits, C + ': loop over ' + what, 'no early exit', 'the loop over the %s is left early (`%s`): later %s are not '
-                    'examined' % (what, short(exits[0]) if exits else '', what), lib.loc(fi, exits[0] if exits else lp))
-        # dict / scalar normalisation of expr
-        norm = {}
-        for n in walk_own(fi.node):
-            if isinstance(n, ast.Assign) and len(n.targets) == 1 and fl.name_of(n.targets[0]) == p_expr:
-                chain = fl.if_chain_containing(n, fi.node)
-                norm[unparse(chain[-1][0].test) if chain else ''] = n
-        dict_branch = [v for k, v in norm.items() if 'dict' in k]
-        if dict_branch:
-            v = dict_branch[0].value
-            good = nf.match('[_V for _K, _V in %s.items()]' % p_expr, v) is not None or nf.match('list(%s.values())' % p_expr, v) is not None \
-                or nf.match('[%s[_K] for _K in %s]' % (p_expr, p_expr), v) is not None
-            keys = nf.match('[_K for _K, _V in %s.items()]' % p_expr, v) is not None or nf.match('list(%s)' % p_expr, v) is not None \
-                or nf.match('list(%s.keys())' % p_expr, v) is not None
-            if good:
-                r.ok(C + ': dict input', 'all values of a structured input are examined', lib.loc(fi, dict_branch[0]))
-            elif keys:
-                r.violation(C + ': dict input', 'the KEYS of a structured input are examined instead of the submitted expressions',
-                            lib.loc(fi, dict_branch[0]))
-            else:
-                r.undecided(C + ': dict input', 'not recognised: %s' % short(v), lib.loc(fi, dict_branch[0]))
-        else:
-            r.undecided(C + ': dict input', 'no normalisation of dict inputs found (summation graders pass a dict)', fi.loc)
-
-        # ---- required functions
-        fi = idx.func(HELP + 'validate_required_functions_used')
-        C = 'validate_required_functions_used'
-        p_used, p_req = fi.params
-        loops = [l for l in lib.loops_of(fi.node) if isinstance(l, ast.For) and isinstance(l.target, ast.Name)]
-        full = [l for l in loops if fl.name_of(l.iter) == p_req]
-        if len(full) != 1:
-            sl = [l for l in loops if isinstance(l.iter, ast.Subscript) and fl.name_of(l.iter.value) == p_req]
-            if sl:
-                r.violation(C + ': loop', 'only part of the required functions is examined (`%s`)' % short(sl[0].iter), lib.loc(fi, sl[0]))
-                return
-            raise AnalysisError('%s: loop over required_funcs not recognised' % C)
-        lp = full[0]
-        fv = lp.target.id
-        hits = [(t, x) for t, x in _guarded_raise(fi, None) if t is not None and any(a is lp for a in ancestors(t))]
-        if not hits:
-            r.violation(C + ': test', 'no test raises any more: a missing required function is accepted', fi.loc)
-        for t, x in hits:
-            res = nf.classify('%s not in %s' % (fv, p_used), t.test)
-            if res == nf.MATCH:
-                r.ok(C + ': test', 'raises when a required function is not among the used ones', lib.loc(fi, t))
-            elif isinstance(res, tuple):
-                r.violation(C + ': test', res[1] + ' -- a formula that omits a required function is accepted (and one that uses it is '
-                            'refused)', lib.loc(fi, t), expected='%s not in %s' % (fv, p_used), found=unparse(t.test))
-            else:
-                r.undecided(C + ': test', 'not recognised: %s' % short(t.test), lib.loc(fi, t))
-            cn, ok = _raise_class_ok(idx, fi, x)
-            r.check(ok, C + ': error', 'raises %s' % cn, 'raises %s, which is not a student-facing error' % cn, lib.loc(fi, x))
-        exits = [e for e in lib.loop_has_early_exit(lp) if not isinstance(e, ast.Raise)]
-        r.check(not exits, C + ': loop', 'every required function is examined', 'the loop is left early (`%s`): only the first required '
-                'function is enforced' % (short(exits[0]) if exits else ''), lib.loc(fi, exits[0] if exits else lp))
-
-        # ---- only permitted functions
-        fi = idx.func(HELP + 'validate_only_permitted_functions_used')
-        C = 'validate_only_permitted_functions_used'
-        p_used, p_perm = fi.params
-        hits = [(t, x) for t, x in _guarded_raise(fi, None) if t is not None]
-        if not hits:
-            unguarded = [x for t, x in _guarded_raise(fi, None) if t is None]
-            if unguarded:
-                r.undecided(C + ': test', 'unconditional raise', lib.loc(fi, unguarded[0]))
-            else:
-                fl.absent(r, idx, C + ': test', 'nothing is raised any more: functions outside the permitted set are accepted', fi.loc)
-        env = lib.local_env(fi.node)
-        for t, x in hits:
-            where = lib.loc(fi, t)
-            if isinstance(t.test, ast.Constant):
-                if not t.test.value:
-                    r.violation(C + ': test', 'the refusal is unreachable (`if %r`): functions outside the permitted set are accepted'
-                                % t.test.value, where)
+            r.ok(C + ': nesting', 'every forbidden string is tested against every expression', where)
+            for (v, ro), what in (((hv, hrole), 'expressions'), ((nv, nrole), 'forbidden strings')):
+                _, sliced, kind, node = ro
+                if sliced:
+                    r.violation(C + ': loop over ' + what, 'only part of the %s is examined (`%s`)' % (what, short(node.iter)), where)
+                elif kind == 'for':
+                    exits = [e for e in lib.loop_has_early_exit(node) if not isinstance(e, ast.Raise)]
+                    inner_loops = [b[3] for b in binds if b[2] == 'for' and b[3] is not node and any(a is node for a in ancestors(b[3]))]
+                    ids = {id(n) for il in inner_loops for n in ast.walk(il)}
+                    exits = [e for e in exits if id(e) not in ids]
+                    r.check(not exits, C + ': loop over ' + what, 'no early exit', 'the loop over the %s is left early (`%s`): later %s are '
+                            'not examined' % (what, short(exits[0]) if exits else '', what), lib.loc(fi, exits[0] if exits else node))
                 else:
-                    r.violation(C + ': test', 'the refusal is unconditional (`if %r`)' % t.test.value, where)
+                    r.check(not node.ifs, C + ': loop over ' + what, 'the generator visits every element',
+                            'the generator skips %s under `%s`' % (what, short(node.ifs[0]) if node.ifs else ''), where)
+        # dict / scalar normalisation of expr (in this function or in one newly extracted helper it hands expr to)
+        hosts = [(fi, p_expr)]
+        for c in walk_own(fi.node):
+            if isinstance(c, ast.Call) and isinstance(c.func, ast.Name) and c.func.id in fi.module.funcs and \
+                    (HELP + c.func.id) in idx.unreviewed and c.args and fl.name_of(c.args[0]) == p_expr:
+                h = fi.module.funcs[c.func.id]
+                hosts.append((h, h.params[0]))
+        verdict = None
+        for h, pe in hosts:
+            for n in ast.walk(h.node):
+                val = None
+                if isinstance(n, (ast.Assign, ast.Return)) and n.value is not None:
+                    chain = fl.if_chain_containing(n, h.node)
+                    if chain and any('dict' in unparse(a.test) and br == 'body' for a, br in chain):
+                        val = n.value
+                elif isinstance(n, ast.IfExp) and 'dict' in unparse(n.test):
+                    val = n.body
+                if val is None:
+                    continue
+                good = any(nf.match(p_ % {'e': pe}, val) is not None for p_ in
+                           ('[_V for _K, _V in %(e)s.items()]', 'list(%(e)s.values())', '[%(e)s[_K] for _K in %(e)s]', '%(e)s.values()'))
+                keys = any(nf.match(p_ % {'e': pe}, val) is not None for p_ in
+                           ('[_K for _K, _V in %(e)s.items()]', 'list(%(e)s)', 'list(%(e)s.keys())', '%(e)s.keys()'))
+                if good:
+                    verdict = ('ok', lib.loc(h, n))
+                elif keys:
+                    verdict = ('keys', lib.loc(h, n))
+                elif verdict is None:
+                    verdict = ('und', lib.loc(h, n), short(val))
+        if verdict is None:
+            r.undecided(C + ': dict input', 'no normalisation of dict inputs found (summation graders pass a dict)', fi.loc)
+        elif verdict[0] == 'ok':
+            r.ok(C + ': dict input', 'all values of a structured input are examined', verdict[1])
+        elif verdict[0] == 'keys':
+            r.violation(C + ': dict input', 'the KEYS of a structured input are examined instead of the submitted expressions', verdict[1])
+        else:
+            r.undecided(C + ': dict input', 'not recognised: %s' % verdict[2], verdict[1])
+
+        # ---- required functions / only permitted functions: "refuse iff some element of SEQ is not in OTHER"
+        for fname, seq_i, other_i, what_ok, what_inv, what_swap in (
+                ('validate_required_functions_used', 1, 0, 'raises when a required function is not among the used ones',
+                 'a formula that omits a required function is accepted (and one that uses it is refused)',
+                 'the roles are swapped: the formula is refused when it uses a function that is not required'),
+                ('validate_only_permitted_functions_used', 0, 1, 'raises when a used function is not permitted',
+                 'the PERMITTED functions are refused: every formula that uses an allowed function is refused and one that uses only '
+                 'forbidden functions is accepted',
+                 'the roles are swapped: the formula is refused unless it uses every permitted function, and forbidden functions pass')):
+            fi = idx.func(HELP + fname)
+            C = fname
+            p_seq, p_other = fi.params[seq_i], fi.params[other_i]
+            env = lib.local_env(fi.node)
+            raises = [x for x in walk_own(fi.node) if isinstance(x, ast.Raise)]
+            if not raises:
+                fl.absent(r, idx, C + ': test', 'nothing is raised any more: %s' % what_inv.split(':')[0], fi.loc)
                 continue
-            test = nf.subst(t.test, env)
-            inner_e = test
-            while isinstance(inner_e, ast.Call) and nf.callee_name(inner_e) in ('sorted', 'list', 'set', 'len', 'any') and inner_e.args:
-                inner_e = inner_e.args[0]
-            verdict = None
-            if isinstance(inner_e, (ast.ListComp, ast.SetComp, ast.GeneratorExp)) and len(inner_e.generators) == 1 \
-                    and isinstance(inner_e.generators[0].target, ast.Name) and len(inner_e.generators[0].ifs) == 1:
-                g = inner_e.generators[0]
-                v = g.target.id
-                flt = nf.canon(g.ifs[0])
-                if fl.name_of(g.iter) == p_used and nf.match('%s not in %s' % (v, p_perm), flt) is not None:
-                    verdict = True
-                elif fl.name_of(g.iter) == p_used and nf.match('%s in %s' % (v, p_perm), flt) is not None:
-                    verdict = 'the filter keeps the PERMITTED functions (`%s`): every formula that uses an allowed function is refused and ' \
-                              'one that uses only forbidden functions is accepted' % unparse(g.ifs[0])
-                elif fl.name_of(g.iter) == p_perm and nf.match('%s not in %s' % (v, p_used), flt) is not None:
-                    verdict = 'the roles are swapped (`%s`): the formula is refused unless it uses every permitted function, and ' \
-                              'forbidden functions pass' % short(inner_e)
-            elif nf.match('set(%s) - set(%s)' % (p_used, p_perm), inner_e) is not None or \
-                    nf.match('set(%s).difference(%s)' % (p_used, p_perm), inner_e) is not None or \
-                    nf.match('%s - %s' % (p_used, p_perm), inner_e) is not None or \
-                    nf.match('not set(%s).issubset(%s)' % (p_used, p_perm), nf.canon(inner_e)) is not None:
-                verdict = True
-            elif nf.match('set(%s) - set(%s)' % (p_perm, p_used), inner_e) is not None:
-                verdict = 'the set difference is taken the wrong way round (`%s`)' % short(inner_e)
-            if verdict is True:
-                r.ok(C + ': test', 'raises when a used function is not permitted', where)
-            elif verdict:
-                r.violation(C + ': test', verdict, where, expected='[f for f in %s if f not in %s]' % (p_used, p_perm))
-            else:
-                r.undecided(C + ': test', 'not recognised: %s' % short(test), where)
-            cn, ok = _raise_class_ok(idx, fi, x)
-            r.check(ok, C + ': error', 'raises %s' % cn, 'raises %s, which is not a student-facing error' % cn, lib.loc(fi, x))
+            for x in raises:
+                where = lib.loc(fi, x)
+                loop = fl.enclosing_loop(x, fi.node)
+                conj = fl.reach_condition(x, fi.node)
+                if len(conj) != 1:
+                    if not conj:
+                        r.undecided(C + ': test', 'unconditional raise', where)
+                    else:
+                        r.undecided(C + ': test', 'several conditions guard the raise: %s' % ' and '.join(unparse(c) for c in conj), where)
+                    continue
+                cond = conj[0]
+                if isinstance(cond, ast.Constant):
+                    r.violation(C + ': test', 'the refusal is %s (`if %r`)' % ('unreachable' if not cond.value else 'unconditional',
+                                                                               cond.value), where)
+                    continue
+                view = fl.exists_view(cond, env, loop)
+                if view is None:
+                    r.undecided(C + ': test', 'not recognised: %s' % short(fl.expand(cond, env)), where)
+                    continue
+                seq, v, pred = view
+                seq_u, _ = fl.unwrap_seq(seq)
+                sliced = isinstance(seq_u, ast.Subscript) and isinstance(seq_u.slice, ast.Slice)
+                base = seq_u.value if sliced else seq_u
+                want = nf.match('%s not in %s' % (v, p_other), pred) is not None
+                inverted = nf.match('%s in %s' % (v, p_other), pred) is not None
+                if fl.name_of(base) == p_seq and want and not sliced:
+                    r.ok(C + ': test', what_ok, where)
+                elif fl.name_of(base) == p_seq and sliced:
+                    r.violation(C + ': test', 'only part of `%s` is examined (`%s`)' % (p_seq, short(seq_u)), where)
+                elif fl.name_of(base) == p_seq and inverted:
+                    r.violation(C + ': test', 'the membership test is inverted (`%s`): %s' % (unparse(pred), what_inv), where,
+                                expected='%s not in %s' % (v, p_other), found=unparse(pred))
+                elif fl.name_of(base) == p_other and nf.match('%s not in %s' % (v, p_seq), pred) is not None:
+                    r.violation(C + ': test', what_swap + ' (`%s` over `%s`)' % (unparse(pred), short(seq_u)), where,
+                                expected='for f in %s: f not in %s' % (p_seq, p_other))
+                else:
+                    r.undecided(C + ': test', 'iteration `%s` / predicate `%s` not recognised' % (short(seq_u), short(pred)), where)
+                cn, ok = _raise_class_ok(idx, fi, x)
+                r.check(ok, C + ': error', 'raises %s' % cn, 'raises %s, which is not a student-facing error' % cn, where)
+                if fname == 'validate_required_functions_used':
+                    if loop is not None:
+                        exits = [e for e in lib.loop_has_early_exit(loop) if not isinstance(e, ast.Raise)]
+                        r.check(not exits, C + ': loop', 'every required function is examined', 'the loop is left early (`%s`): only the '
+                                'first required function is enforced' % (short(exits[0]) if exits else ''),
+                                lib.loc(fi, exits[0] if exits else loop))
+                    else:
+                        r.ok(C + ': loop', 'the generator/filter visits every required function', where)
 
 
 PERM_SCENARIOS = [
@@ -818,10 +763,10 @@ def _blacklist_model(r, fi, name, with_siblings, bl, loop, prov, where):
         mev.run(pre, env)
         got = env.get(bl)
         if not isinstance(got, (list, set, tuple)):
-            raise mev.Unsupported('black-list is not a list on the model')
+            raise mev.Unsupported('black-list is not a list')
         got = list(got)
     except mev.Unsupported as e:
-        r.undecided(construct, 'construction of `%s` is outside the supported model evaluation (%s)' % (bl, e), where)
+        r.undecided(construct, 'construction of `%s` is outside the supported set-algebra evaluation (%s)' % (bl, e), where)
         return
     missing = sorted(want - set(got))
     extra = sorted(set(got) - want)
@@ -834,16 +779,16 @@ def _blacklist_model(r, fi, name, with_siblings, bl, loop, prov, where):
                          "to another input box (e.g. add 0*sibling_1) and is not rejected" % sib)
         if iv:
             parts.append('the sampled instructor variable %s is not black-listed: it stays usable by the student' % iv)
-        r.violation(construct, "on the model (instructor_vars ['iv_in', 'iv_out'], samples %s%s) `%s` evaluates to %s; %s"
+        r.violation(construct, "over the symbolic universe (instructor_vars ['iv_in', 'iv_out'], samples %s%s) `%s` evaluates to %s; %s"
                     % (sorted(sample), ', sibling_formulas sibling_1/sibling_2' if with_siblings else '', bl, got, '; '.join(parts)), where,
                     expected='black-list >= (instructor_vars & samples) | keys(sibling_formulas) = %s' % sorted(want), found=str(got))
     elif extra:
         why = 'an ordinary variable is deleted from the student\'s scope: correct answers using it are refused' if 'x' in extra else \
               'a name that is not in the samples is black-listed: `del` raises KeyError for every submission'
-        r.violation(construct, 'on the model `%s` evaluates to %s, expected %s: %s' % (bl, got, sorted(want), why), where,
+        r.violation(construct, 'over the symbolic universe `%s` evaluates to %s, expected %s: %s' % (bl, got, sorted(want), why), where,
                     expected=str(sorted(want)), found=str(got))
     else:
-        r.ok(construct, 'on the model the black-list is exactly (instructor_vars & samples)%s = %s'
+        r.ok(construct, 'over the symbolic universe the black-list is exactly (instructor_vars & samples)%s = %s'
              % (' | sibling names' if with_siblings else '', sorted(want)), where)
 
 
